@@ -21,7 +21,7 @@ TProg    == [t \in TThreads |->
 
 VARIABLES cache, lock, th, last, l
 R == INSTANCE RecCheck WITH Nodes <- TNodes, Succ <- TSucc, Threads <- TThreads, Prog <- TProg,
-                            UseLock <- TRUE
+                            UseLock <- TRUE, Deviations <- {}
 
 IsEv(op) == l <= Len(Ev) /\ Ev[l].op = op /\ l' = l + 1
 InOut(k) == IF cache[k] # "none" THEN "in" ELSE "out"
@@ -30,8 +30,9 @@ TraceInit == R!Init /\ l = 1 /\ TLCSet(7, 1)
 TraceNext ==
   \/ /\ IsEv("call")     /\ R!Start(Ev[l].t) /\ TProg[Ev[l].t][th[Ev[l].t].pi + 1] = Ev[l].key
   \/ /\ IsEv("contains") /\ Ev[l].val = InOut(Ev[l].key)
-     /\ \/ R!Check(Ev[l].t)   /\ R!Root(Ev[l].t) = Ev[l].key
-        \/ R!Enter(Ev[l].t)   /\ th[Ev[l].t].cur = Ev[l].key
+     /\ R!Check(Ev[l].t)   /\ R!Root(Ev[l].t) = Ev[l].key
+  \/ /\ IsEv("lookup") /\ Ev[l].val = cache[Ev[l].key]
+     /\ R!Enter(Ev[l].t)   /\ th[Ev[l].t].cur = Ev[l].key
   \/ /\ IsEv("acquire")  /\ R!Acquire(Ev[l].t)
   \/ /\ IsEv("release")  /\ R!Release(Ev[l].t)
   \/ /\ IsEv("set")
@@ -45,7 +46,8 @@ TraceSpec == TraceInit /\ [][TraceNext]_<<cache, lock, th, last, l>>
 CacheSound  == R!CacheSound
 ResultSound == R!ResultSound
 \* accepted iff every logged event was matched
-TraceAccepted == TLCGet("stats").diameter - 1 = Len(Ev)
+TraceAccepted == IF TLCGet("stats").diameter - 1 = Len(Ev) THEN TRUE
+                 ELSE PrintT(<<"REJECTED_AT", TLCGet(7), Ev[TLCGet(7)]>>) /\ FALSE
 \* where the longest matched prefix stops (printed for rejected traces)
 Progress == IF l > TLCGet(7) THEN TLCSet(7, l) ELSE TRUE
 =============================================================================
